@@ -730,6 +730,7 @@ class SchedulingSolver(BaseModelWithJson):
         current_variable_value = None
         print("Incremental optimizer:\n======================")
         three_last_times = []
+        nb_pushed_scopes = 0
 
         if self._objective._bounds is None:
             bound = None
@@ -810,12 +811,18 @@ class SchedulingSolver(BaseModelWithJson):
                     )
                     break
             self._solver.push()
+            nb_pushed_scopes += 1
             if kind == "min":
                 self.append_z3_assertion(variable < current_variable_value)
                 print(f"\tChecking better value < {current_variable_value}")
             else:
                 self.append_z3_assertion(variable > current_variable_value)
                 print(f"\tChecking better value > {current_variable_value}")
+
+        # remove the "better than the incumbent" bounds, otherwise any further
+        # call to solve() or find_another_solution() reports an unsat problem
+        for _ in range(nb_pushed_scopes):
+            self._solver.pop()
 
         print(f"\ttotal number of iterations: {num_iter}")
         if current_variable_value is not None:
